@@ -207,9 +207,10 @@ func (q *Q) positional() bool { return q.hasOp("i", "sl", "lt", "sort", "sub", "
 // ---------------------------------------------------------------- per-value systematic queries
 
 type valueInfo struct {
-	kind   byte     // 's' 'a' or scalar
-	length int      // children / elements / runes (0 if unknown)
-	names  []string // field names (struct) or keys of an Any object
+	kind      byte     // 's' 'a' or scalar
+	length    int      // children / elements / runes (0 if unknown)
+	names     []string // field names (struct) or keys of an Any object
+	sliceable bool     // JQValueSliceLen is an int
 }
 
 var litPool = []any{nil, true, false, 0, 1, -1, 2.5, "", "a", "12", []any{}, []any{1}, map[string]any{}, map[string]any{"a": 1},
@@ -238,7 +239,7 @@ func systematicQueries(vi valueInfo, thorough bool) []*Q {
 		qn("alt", q0("id"), qLit(5)),
 		qn("alt", qn("try", q0("it")), qLit("none")),
 		qn("arr", qn("comma", q0("id"), q0("id"))),
-		qn("pipe", qn("arr", qn("comma", q0("id"), qLit(1), )), q0("sort")),
+		qn("pipe", qn("arr", qn("comma", q0("id"), qLit(1))), q0("sort")),
 		qn("eq", q0("id"), q0("id")),
 		qn("lt", q0("id"), q0("id")),
 		qn("add", q0("id"), q0("id")),
@@ -364,9 +365,9 @@ var extQueries = []extQ{
 	{"sub(\"a\";\"b\")", true, false}, {"ascii", false, false}, {"tojson|fromjson", true, false},
 	{"join(\",\")", true, true}, {"min", true, true}, {"max", true, true}, {"unique", true, true}, {"group_by(.)", true, true},
 	{"flatten", false, true}, {"add", true, true}, {"any", false, true}, {"all", false, true}, {"[tostream]", false, true},
-	{"to_entries|from_entries", false, true}, {"with_entries(.)", false, true}, {"map(.)", false, true}, 
+	{"to_entries|from_entries", false, true}, {"with_entries(.)", false, true}, {"map(.)", false, true},
 	{"[.[]?|select(.)]", false, true}, {"first(.[]?)", false, true}, {"[limit(2;.[]?)]", false, true}, {"last", false, true}, {"nth(1)", false, true},
-	{"reverse", false, true}, {"floor", false, false}, {"sqrt", false, false}, 
+	{"reverse", false, true}, {"floor", false, false}, {"sqrt", false, false},
 	{". * 2", true, false}, {". / 2", true, false}, {". % 3", false, false}, {"abs", false, false}, {"0 - .", false, false}, {"tostring|length", true, false},
 	{"isvalid(.[0])", false, false}, {"[leaf_paths]", false, true}, {"[paths(type == \"number\")]", false, true}, {"getpath([\"a\"])", false, false},
 	{"getpath([0])", false, false}, {"[..|numbers]", false, true}, {"[..|strings]|length", false, true}, {"[..|scalars]|length", false, true},
@@ -380,9 +381,9 @@ var extQueries = []extQ{
 	{"reduce .[]? as $x (0; . + 1)", false, false}, {"[foreach .[]? as $x (0; . + 1)]", false, false}, {"[.[]?] | length", false, false},
 	{"if type == \"number\" then . + 1 else . end", false, false}, {"try error catch .", true, false}, {"[.[]?|numbers]|add", false, false},
 	{"tonumber? // \"nan\"", true, false}, {"ltrimstr(\"\")|length", false, false}, {"@base64d", true, false}, {"todate?", false, false},
-	{"tojson|length", true, false}, {"[.. | type] | unique", false, false}, {"[paths] | length", false, false}, 
+	{"tojson|length", true, false}, {"[.. | type] | unique", false, false}, {"[paths] | length", false, false},
 	{"to_entries|length", false, false}, {"has(0)?", false, false}, {"in([1,2])?", false, false}, {"objects|keys|sort", false, false},
-	{"arrays|length", false, false}, {"[.[]?|.. ]|length", false, false}, {"getpath([\"a\",\"b\"])?", false, false}, {"[getpath([\"a\"],[0])?]", false, false},
+	{"arrays|length", false, false}, {"[.[]?|.. ]|length", false, false},
 	{"pick(.a)?", false, true}, {"have_literal_numbers", false, false}, {"ascii(65)?", false, false}, {"@base32", true, false}, {"[limit(3;repeat(1))]", false, false},
 	{"tojson|ascii_downcase", true, false}, {"significand?", false, false}, {"trim?", true, false}, {"ltrim?", true, false}, {"abs?", false, false},
 	{"toarray?", false, true}, {"[.[]?]|map(type)", false, true}, {"tojson|explode|length", true, false}, {"getpath(paths)?", false, true},
